@@ -1,6 +1,7 @@
 package main
 
 import (
+	"os"
 	"crypto/sha256"
 	"fmt"
 	"go/types"
@@ -155,6 +156,17 @@ func (w *World) VerifyFunc(lc *LoadedContract, opts VerifyOpts) (res *FuncResult
 			fr.envStep(exit, rl.comp, rl.cs, rl.recv, rl.vt, rl.rely)
 		}
 		ex.cover(exit, "exit-reachable")
+		if os.Getenv("VC_DEBUG") != "" {
+			for _, k := range sortedKeys(exit.heap) {
+				fmt.Fprintf(os.Stderr, "EXIT %s = %s\n", k, truncate(exit.heap[k].String(), 300))
+			}
+			for i, r := range fr.rets {
+				fmt.Fprintf(os.Stderr, "RET %d pc=%s\n", i, truncate(r.st.pc.String(), 300))
+				for _, k := range sortedKeys(r.st.heap) {
+					fmt.Fprintf(os.Stderr, "   %s = %s\n", k, truncate(r.st.heap[k].String(), 200))
+				}
+			}
+		}
 		specArgs1 := append(append([]Val(nil), params...), vals...)
 		for i, v := range vals {
 			if v.T != nil {
